@@ -532,7 +532,9 @@ def legacy_agreement(chk, seed, tier):
     nb = ne = 0
     api = ["isal", "legacy"]
     hexe = build.build_driver("hash", HASH_SRCS)
-    sets = [(hexe, "TraceHash", hash_jobs(seed + 160, 6 * k, fams=api), "HReset")]
+    # with refused submits mixed in: a refusal must be reported by the wrapper's return code and leave the history usable
+    # (first clause of C16 for the hash managers, whose argument errors surface through the context)
+    sets = [(hexe, "TraceHash", hash_jobs(seed + 160, 12 * k, fams=api, rejects=0.25), "HReset")]
     aexe = build.build_driver("aes", AES_SRCS)
     aj = {}
     aj.update(gen_aes.gcm_oneshot_behaviours(rng, 14 * k, fams=api))
